@@ -35,7 +35,29 @@ type GenOpts struct {
 	MaxDepth int
 	Conds    bool
 	Plain    bool // simple names only
+	Large    bool // some types with 13-45 relations and up to 30 types (sort implementations switch algorithm with size)
 }
+
+var relPoolLarge, typePoolLarge = func() ([]string, []string) {
+	rs := append([]string{}, relPool...)
+	ts := append([]string{}, typePool...)
+	for i := 0; i < 50; i++ {
+		rs = append(rs, fmt.Sprintf("%c%c%d", 'a'+i%7, 'k'+(i*5)%11, i%10), fmt.Sprintf("R%02d", (i*37)%100))
+		ts = append(ts, fmt.Sprintf("%c%ct%d", 'b'+i%5, 'o'+(i*3)%7, i%10))
+	}
+	dedup := func(xs []string) []string {
+		seen := map[string]bool{}
+		out := []string{}
+		for _, x := range xs {
+			if !seen[x] {
+				seen[x] = true
+				out = append(out, x)
+			}
+		}
+		return out
+	}
+	return dedup(rs), dedup(ts)
+}()
 
 func genNames(rng *rand.Rand, pool []string, n int, plain bool) []string {
 	seen := map[string]bool{}
@@ -188,6 +210,9 @@ func GenModel(rng *rand.Rand, o GenOpts) *Model {
 	}
 	m := &Model{Schema: []string{"1.1", "1.1", "1.2", "1.0", "2.10"}[rng.Intn(5)]}
 	types := genNames(rng, typePool, 1+rng.Intn(o.MaxTypes), o.Plain)
+	if o.Large && rng.Intn(2) == 0 {
+		types = genNames(rng, typePoolLarge, 13+rng.Intn(18), false)
+	}
 	var condNames []string
 	if o.Conds && rng.Intn(2) == 0 {
 		m.Conds = genConds(rng, 1+rng.Intn(2))
@@ -200,6 +225,10 @@ func GenModel(rng *rand.Rand, o GenOpts) *Model {
 		t := Type{Name: tn}
 		nrel := rng.Intn(o.MaxRels + 1)
 		rels := genNames(rng, relPool, max(nrel, 1), o.Plain)
+		if o.Large && rng.Intn(3) == 0 {
+			nrel = 13 + rng.Intn(33)
+			rels = genNames(rng, relPoolLarge, nrel, false)
+		}
 		if nrel == 0 {
 			rels = rels[:0]
 		}
